@@ -44,6 +44,7 @@ def gen_cases(ctx):
         for _ in range(per * 30):
             if made >= per:
                 break
+            mirrored = False
             if mname == "YTKProduct":
                 q = 1
                 # the payload of a YTK product is its wildcard run (>= 2 nt): the product's own target carries the
@@ -57,7 +58,20 @@ def gen_cases(ctx):
                     continue
             else:
                 q = rng.choice([1, 2, 3])
-                vseq, vg = gens.instantiate_groups(rng, vitems, star=(0, 8))
+                allowed = []
+                vseq, vg = gens.instantiate_groups(rng, vitems, star=(0, 8), allowed=allowed)
+                if rng.random() < 0.25:
+                    # the next level's fusion sites chosen as a reverse-complementary pair
+                    v2 = gens.mirror_next_overhangs(vseq, allowed, nenz)
+                    if v2 is not None and all(v2[i] == vseq[i] or allowed[i] for i in range(len(v2))):
+                        # groups 1 and 3 of this level are re-read from the rewritten word below
+                        delta = [i for i in range(len(v2)) if v2[i] != vseq[i]]
+                        g1s = vseq.index(vg[1]) if vseq.count(vg[1]) == 1 else None
+                        g3s = vseq.index(vg[3]) if vseq.count(vg[3]) == 1 else None
+                        touched = any(g is None or (g <= i < g + len(vg[1])) for g in (g1s, g3s) for i in delta)
+                        if not touched:
+                            vseq = v2
+                            mirrored = True
                 ohs = gens.distinct_overhangs(rng, enz, q - 1) if q > 1 else []
                 if ohs is None:
                     continue
@@ -79,7 +93,7 @@ def gen_cases(ctx):
             made += 1
             order = list(range(q))
             rng.shuffle(order)
-            cases.append({"triple": [vname, mname, nname], "q": q, "ins": ins, "nenz": nenz,
+            cases.append({"triple": [vname, mname, nname], "q": q, "ins": ins, "nenz": nenz, "mirrored": mirrored,
                           "vector": {"cls": gens.kit_spec(cv), "seq": gens.new_origin(vseq, rng.randrange(0, len(vseq)))},
                           "modules": [{"cls": gens.kit_spec(cm), "seq": gens.new_origin(mods[i]["seq"], rng.randrange(0, len(mods[i]["seq"])))}
                                       for i in order],
@@ -135,6 +149,8 @@ def run(ctx):
     for i, (c, o) in enumerate(zip(cases, obs)):
         ctx.evaluations += 1
         ctx.count("triple:" + c["triple"][0])
+        if c.get("mirrored"):
+            ctx.count("next-level-overhangs:reverse-complementary-pair")
         a = o["asm"]
         inp = {k: c[k] for k in ("triple", "q", "ins", "nenz", "vector", "modules", "next", "ks", "seed")}
         aterms.append(C03.c_raw(ctx, c, a))
